@@ -8,7 +8,7 @@ OK_URIS = ["http://opcfoundation.org/UA/SecurityPolicy#Basic256Sha256".encode().
            "http://opcfoundation.org/UA/SecurityPolicy#Basic128Rsa15".encode().hex()]
 
 
-def imports(cert_hex):
+def imports(cert_hex, ec_hex=""):
     return """From Coq Require Import NArith ZArith List Bool.
 From Opcua Require Import Model.RecvBase Model.RecvCrypto Model.RecvMerge Model.RecvFrame.
 Import ListNotations. Open Scope Z_scope.
@@ -17,11 +17,14 @@ Definition none_uri : bytes := %s%%N.
 Definition ok_uri1 : bytes := %s%%N.
 Definition ok_uri2 : bytes := %s%%N.
 Definition the_cert : bytes := %s%%N.
+Definition ec_cert : bytes := %s%%N.
+(* certificate oracle: the harness' RSA certificate parses (RSA key), its ECDSA certificate parses (non-RSA key), everything else it sends does not parse *)
+Definition cc (c : bytes) : N := if bytes_eqb c the_cert then 2%%N else if bytes_eqb c ec_cert then 1%%N else 0%%N.
 Definition un (u : bytes) : bool := bytes_eqb u none_uri.
 (* a real RSA algorithm fed with bytes that were not produced under its keys: decryption fails *)
 Definition rsa_algo : algo := {| a_dec := fun _ => None; a_verify := fun _ _ => false; a_rsl := 256; a_lsl := 256 |}.
 Definition af (u c : bytes) : option algo :=
-  if (bytes_eqb u ok_uri1 || bytes_eqb u ok_uri2) && bytes_eqb c the_cert then Some rsa_algo else None.
+  if (bytes_eqb u ok_uri1 || bytes_eqb u ok_uri2) then Some rsa_algo else None.
 Definition toy (block : Z) (kc km : N) (sl : Z) : option algo :=
   Some {| a_dec := toy_dec block kc; a_verify := toy_verify km; a_rsl := sl; a_lsl := sl |}.
 Definition md (n : Z) : smode := if n =? 2 then SSign else if n =? 3 then SSignEnc else SNone.
@@ -35,8 +38,8 @@ Definition obs_agree (r : res chunk) (o : iobs) : bool :=
 Fixpoint chk (st : fstate) (l : list (bytes * iobs)) : bool :=
   match l with
   | [] => true
-  | (b, o) :: r => let '(st', x) := read_frame un af true st b in obs_agree x o && chk st' r
-  end.""" % (hexN(NONE_URI), hexN(OK_URIS[0]), hexN(OK_URIS[1]), hexN(cert_hex))
+  | (b, o) :: r => let '(st', x) := read_frame un cc af true st b in obs_agree x o && chk st' r
+  end.""" % (hexN(NONE_URI), hexN(OK_URIS[0]), hexN(OK_URIS[1]), hexN(cert_hex), hexN(ec_hex))
 
 
 CTYPE = "fstate * list (bytes * iobs)"
@@ -97,7 +100,7 @@ def run(ctx):
                       "an unsolicited OpenSecureChannelResponse whose request id matches a pending request left the dispatcher waiting on rcvLocker: the next response was not delivered until the lock was released by hand", {"case": wedge}))
     corr_ok, mism, idx = True, [], []
     if rp is None:
-        okc, idx, clog = ctx.eval_cases(imports(cases[0]["cert"]), CTYPE, [term(c) for c in cases], AGREE, shard=40)
+        okc, idx, clog = ctx.eval_cases(imports(cases[0]["cert"], cases[0].get("eccert", "")), CTYPE, [term(c) for c in cases], AGREE, shard=40)
         if not okc:
             corr_ok = False
             detail["cases"] = clog[-1500:]
